@@ -165,7 +165,12 @@ class RSocketBase(RSocket, RSocketInternal):
     def _queue_request_frame(self, frame: RequestFrame):
         logger().debug('%s: lease not allowing to send request. queueing', self._log_identifier())
 
-        self._request_queue.put_nowait(frame)
+        try:
+            self._request_queue.put_nowait(frame)
+        except asyncio.QueueFull:
+            # the request is refused, not retained: do not keep its stream registered
+            self.finish_stream(frame.stream_id)
+            raise
 
     def send_priority_frame(self, frame: Frame):
         items = []
